@@ -64,7 +64,7 @@ Definition redistribute_weights (ws : list Z) (max_num_bits : Z) : res (list Z) 
   else
     let d := sum_log - max_num_bits + 1 in
     let '(ws1, added) := raise_low ws d in
-    let* ws2 := reduce_loop (S (Z.to_nat added)) ws1 added in
+    let* ws2 := reduce_loop (Z.to_nat 4096) ws1 added in   (* at most sum-of-weights rounds *)
     match ws2 with
     | w0 :: _ => if 1 <? w0 then ROk (map (fun w => w - (w0 - 1)) ws2) else ROk ws2
     | [] => RPanic "index out of bounds"
